@@ -212,7 +212,7 @@ func Parts() []mc.Part {
 		return rep
 	}}
 	return []mc.Part{
-		mc.ExplorePartC("search", New, 5, 7, true, "state with >= 2 records created on the path; distinct by canonical store+model hash",
+		mc.ExplorePartC("search", New, 6, 8, true, "state with >= 2 records created on the path; distinct by canonical store+model hash",
 			&mc.ConfOpts{Stores: []string{"record"}, SkipDenoms: map[string]bool{"stake": true}, MaxPaths: 150, SignInSeam: true}),
 		surface,
 	}
